@@ -221,6 +221,17 @@ func Gen(seed uint64, profile string) *Scenario {
 	default:
 		panic("uw: unknown profile " + profile)
 	}
+	if pr := simkit.NewRNG(seed, "uw/conc-peer"); sc.SharedPacker && profile != "small" && pr.Chance(1, 3) {
+		sc.ConcPeer = true
+		sc.SchedSeed = pr.U64()
+		if profile != "wellformed" && len(sc.Archives) > 0 && pr.Chance(1, 2) {
+			// a link that leaves this destination and lands in the one the other caller is filling
+			l := Entry{Name: simkit.Pick(pr, []string{"to-peer", "a/to-peer"}), Type: "sym", Mode: 0o777, Sec: 1000000000, Link: simkit.Pick(pr, []string{"../peer-dst/pd/f", "../peer-dst", "/w/peer-dst/pd/f"})}
+			es := sc.Archives[0].Entries
+			pos := pr.Intn(len(es) + 1)
+			sc.Archives[0].Entries = append(es[:pos:pos], append([]Entry{l}, es[pos:]...)...)
+		}
+	}
 	return sc
 }
 
@@ -451,6 +462,7 @@ var hostileTargets = []string{
 	"/w/ext", "/w/ext/file", "../ext/file",
 	"../shared/keep", "../shared-secrets/keep", "../shared-secrets", "../sharedx",
 	"../releases/v1/data", "../releases/v1",
+	"../peer-dst/pd/f", "../peer-dst", "/w/peer-dst/pd/f",
 	"..\\victim", "..\\..\\victim", "\\etc\\shadow", "\\w\\victim", "a\\..\\..\\victim",
 }
 
